@@ -367,3 +367,31 @@ Qed.
 (* without any fallthrough exactly one clause runs: the first matching case, else the default *)
 Lemma run_from_no_fall c t : snd c = false -> run_from (c :: t) = [snd (fst c)].
 Proof. destruct c as [[o m] f]. cbn. intros ->. reflexivity. Qed.
+
+(* ---------- keyed struct literals ---------- *)
+Lemma lookup_field_exact fs : forall name i, lookup_field fs name = Some i -> nth_error fs i = Some name.
+Proof.
+  induction fs as [|f t IH]; intros name i; cbn [lookup_field]; [discriminate|].
+  destruct (str_eqb f name) eqn:E.
+  - intros H. injection H as <-. apply str_eqb_eq in E. subst. reflexivity.
+  - destruct (lookup_field t name) as [j|] eqn:Ej; cbn [option_map]; [|discriminate].
+    intros H. injection H as <-. cbn [nth_error]. apply IH. exact Ej.
+Qed.
+
+(* accepting the capitalised spelling in the same pass is harmless when no field spelt that way precedes the
+   exact one, and picks the WRONG field otherwise (struct { Value int; value int } with key value) *)
+Lemma lookup_field_alias_same fs name :
+  forallb (fun f => negb (str_eqb f (capitalise name)) || str_eqb f name) fs = true ->
+  lookup_field_alias fs name = lookup_field fs name.
+Proof.
+  induction fs as [|f t IH]; cbn [forallb lookup_field lookup_field_alias]; auto.
+  intros H. apply andb_prop in H as [H1 H2]. rewrite (IH H2).
+  destruct (str_eqb f name); cbn [orb]; auto.
+  destruct (str_eqb f (capitalise name)); [discriminate|reflexivity].
+Qed.
+
+Lemma lookup_field_alias_refuted :
+  exists fs name i j, lookup_field fs name = Some i /\ lookup_field_alias fs name = Some j /\ i <> j.
+Proof.
+  exists [[86; 97; 108]; [118; 97; 108]]%N, [118; 97; 108]%N, 1%nat, 0%nat. repeat split; try (vm_compute; reflexivity). discriminate.
+Qed.
